@@ -135,10 +135,10 @@ theorem keyMatches_clear_piece (T : KeyTable) (s : Bytes) (hc : (comparable T s)
 /-- the parsers after `parseFunctionKey` are silent on `q` -/
 def LaterSilent (cfg : Cfg) (st : PState) (q : Bytes) : Prop :=
   Silent (parseFocus st q) ∧ Silent (parseXtermMouse cfg st q) ∧ Silent (parseSgrMouse cfg st q) ∧
-    Silent (parseClipboard st q)
+    Silent (parseClipboardV cfg.clipFixed st q)
 
 theorem later_of (cfg : Cfg) (st : PState) (q : Bytes) (ps : List (PState → Bytes → Verdict))
-    (hps : ∀ p ∈ ps, p = parseXtermMouse cfg ∨ p = parseSgrMouse cfg ∨ p = parseClipboard)
+    (hps : ∀ p ∈ ps, p = parseXtermMouse cfg ∨ p = parseSgrMouse cfg ∨ p = parseClipboardV cfg.clipFixed)
     (h : LaterSilent cfg st q) : ∀ p ∈ parseFocus :: ps, Silent (p st q) := by
   intro p hp
   rcases List.mem_cons.mp hp with e | hp
@@ -190,7 +190,10 @@ theorem later_paste_prefix (cfg : Cfg) (st : PState) (q : Bytes)
   rcases hq with rfl | rfl | rfl | rfl | rfl | rfl
   all_goals
     refine ⟨?_, ?_, ?_, ?_⟩
-    all_goals first | exact Or.inl rfl | exact Or.inr rfl
+    all_goals first
+      | exact Or.inl rfl
+      | exact Or.inr rfl
+      | (rw [parseClipboardV_short _ _ _ (by decide)]; first | exact Or.inl rfl | exact Or.inr rfl)
 
 theorem pasteStart_good (cfg : Cfg) (hp : pasteKeys cfg.keys = true) (st : PState) (hs : st.escaped = false) :
     GoodTok cfg st ⟨pasteStartSeq, .paste true⟩ := by
@@ -254,7 +257,10 @@ theorem focus_good (cfg : Cfg) (st : PState) (c : Nat) (hc : c = 73 ∨ c = 79)
         rcases this with rfl | rfl
         all_goals
           refine ⟨?_, ?_, ?_, ?_⟩
-          all_goals first | exact Or.inl rfl | exact Or.inr rfl
+          all_goals first
+            | exact Or.inl rfl
+            | exact Or.inr rfl
+            | (rw [parseClipboardV_short _ _ _ (by simp)]; first | exact Or.inl rfl | exact Or.inr rfl)
     · right
       refine ⟨parseFocus, by simp, ?_⟩
       rcases this with rfl | rfl <;> rfl
